@@ -68,7 +68,7 @@ func member(t Ty, v Val, asg func(t, u Ty) bool) bool {
 	case "default":
 		return v.K == "default"
 	case "scalar": // strings, numbers, booleans, regexps, timespans
-		return isStr(v) || isNumber(v) || v.K == "b" || v.K == "rxv" || v.K == "ts"
+		return isStr(v) || isNumber(v) || v.K == "b" || v.K == "rxv" || v.K == "ts" || v.K == "tsv"
 	case "sdata": // strings, integers, floats, booleans
 		return isStr(v) || isNumber(v) || v.K == "b"
 	case "numeric":
@@ -92,6 +92,9 @@ func member(t Ty, v Val, asg func(t, u Ty) bool) bool {
 		return v.K == "b" && (t.B < 0 || v.B == (t.B == 1))
 	case "tspan":
 		return v.K == "ts" && t.Lo <= v.I && v.I <= t.Hi
+	case "tstamp": // an instant between the bounds, compared as (seconds, nanoseconds)
+		le := func(s1, n1, s2, n2 int64) bool { return s1 < s2 || s1 == s2 && n1 <= n2 }
+		return v.K == "tsv" && le(t.Lo, t.NLo, v.I, v.I2) && le(v.I, v.I2, t.Hi, t.NHi)
 	case "strsz": // the size of a string is its number of characters
 		return isStr(v) && inSize(utf8.RuneCountInString(v.S), t.Lo, t.Hi)
 	case "strval":
